@@ -4,6 +4,7 @@ import (
 	"math/big"
 	"time"
 
+	"github.com/formancehq/numscript/internal/verifmc/env"
 	"github.com/formancehq/numscript/internal/verifmc/mc"
 	"github.com/formancehq/numscript/internal/verifmc/ref"
 )
@@ -75,6 +76,13 @@ func runC04(w *mc.Worker) {
 		sp.BalDom, sp.AmtDom = bal, amt
 		runSendSpace(w, &sp, owns, nontriv)
 	}
+	runVarSeqSpace(w, "vars-L2", 1, 2, func(c *seqCase, vars map[string]string, bal env.Bal) {
+		judgeSeqCase(w, c, vars, bal, owns, nontriv, false)
+	})
+	runEdgeSeqSpace(w, "edge-L2", 1, 2, func(c *seqCase, bal env.Bal) { judgeSeqCase(w, c, nil, bal, owns, nontriv, false) })
+	runOriginSeqSpace(w, "origin-L2", 1, 2, []string{"x", "a"}, func(c *seqCase, oc *originCase) {
+		judgeSeqCaseX(w, c, nil, oc, owns, nontriv, false, env.Exact)
+	})
 	stage("pow2-w1", "source trees of weight <= 1; balances and amounts in {0,1,2^63-1,2^63,2^64-1,2^64,2^64+1,2^65}", 1, 1, pow2Dom(), pow2Dom())
 	if w.Tier == "quick" {
 		stage("w2-d1", "source trees of weight <= 2, nesting depth <= 1; balances {0,1,3,6,-2}^2; amounts {0,1,2,4,7}", 2, 1, balQ, amtQ)
